@@ -213,7 +213,13 @@ func ruleIORead(p *Prog, r *Report, fns []*ssa.Function) {
 			if dataPath && returnsReadErr {
 				badC = p.Pos(ret.Pos())
 			}
-			if !dataPath && !errPath {
+			certainErr := false
+			for _, op := range ret.Results {
+				if isErrorType(op.Type()) && !isNilConst(op) && certainlyNonNilError(op) {
+					certainErr = true
+				}
+			}
+			if !dataPath && !errPath && !certainErr {
 				// reachable with n == 0: is it reachable with err == nil too? only if not every path to it has the error excluded
 				if returnsReadErr && rs.err != nil && !dataPath {
 					// `return x, err` with err possibly nil and no data
